@@ -8,7 +8,7 @@ let closeq a b = q_close ~atol:tol ~rtol:tol a b
 
 let site_of = function
   | "ip" -> "IncrementalPruning::operator()" | "wit" -> "Witness::operator()" | "ls" -> "LinearSupport::operator()"
-  | "pbvi" -> "PBVI::operator()" | "perseus" -> "PERSEUS::operator()" | "qmdp" -> "QMDP::operator()" | s -> s
+  | "pbvi" -> "PBVI::operator()" | "pbviw" -> "PBVI::operator()(model,v)" | "perseus" -> "PERSEUS::operator()" | "qmdp" -> "QMDP::operator()" | s -> s
 
 (* parse the preorder dump of the Policy's decisions; returns the tree and the list of
    (hLeft, parent id, obs, action, new id) steps for the correspondence *)
@@ -34,7 +34,7 @@ let judge _id (c : cursor) (r : cursor) : bool * string =
     let vf = read_vf r in
     let hh = List.length vf - 1 in
     if hh < 0 then oracle_fail "horizon_count" site "empty value function";
-    if hh > h then oracle_fail "horizon_count" site "more horizons than requested";
+    if hh > (if alg = "pbviw" then 2 * h else h) then oracle_fail "horizon_count" site "more horizons than requested";
     (* O1: every entry is a plan over the previous horizon (links in range, vector = back-up) *)
     (match vf with
      | v0 :: rest_ ->
